@@ -805,7 +805,10 @@ func (self *PathNode) handleChild(in *[]PathNode, lp *int, cp *int, p *thrift.Bi
 	var l = *lp
 	guardPathNodeSlice(&con, l)
 	if l >= len(con) {
+		old := len(con)
 		con = con[:l+1]
+		// the slots a sparse (by-id) store skips over still hold what the array was used for before
+		clearPathNodes(con[old:l])
 	}
 	v := &con[l]
 	l += 1
@@ -834,12 +837,22 @@ func (self *PathNode) handleChild(in *[]PathNode, lp *int, cp *int, p *thrift.Bi
 		}
 		p.Buf = buf
 		p.Read = ss + p.Read
+	} else {
+		// not loaded this time: children of a previous use of the slot are not this value's children
+		v.Next = v.Next[:0]
 	}
 
 	*in = con
 	*lp = l
 	*cp = cap(con)
 	return v, nil
+}
+
+// clearPathNodes empties the slots of a (re-used) children array
+func clearPathNodes(s []PathNode) {
+	for i := range s {
+		s[i] = PathNode{}
+	}
 }
 
 // Error returns non-empty string if the PathNode has error
@@ -1193,6 +1206,8 @@ func (self *PathNode) scanChildren(p *thrift.BinaryProtocol, recurse bool, opts 
 				// NOTE: we use original count*2 as the capacity of the hash table.
 				N = size * 2
 				guardPathNodeSlice(&con, N-1)
+				// the probe inspects slots before they are stored: a re-used array has to start empty
+				clearPathNodes(con[:N])
 				conAddr = *(*unsafe.Pointer)(unsafe.Pointer(&con))
 				c = N
 			}
@@ -1217,6 +1232,8 @@ func (self *PathNode) scanChildren(p *thrift.BinaryProtocol, recurse bool, opts 
 				// NOTE: we use original count*2 as the capacity of the hash table.
 				N = size * 2
 				guardPathNodeSlice(&con, N-1)
+				// the probe inspects slots before they are stored: a re-used array has to start empty
+				clearPathNodes(con[:N])
 				conAddr = *(*unsafe.Pointer)(unsafe.Pointer(&con))
 				c = N
 			}
